@@ -20,6 +20,20 @@ abbrev Toks := List Tok
 
 def bytesT (s : Str) : Toks := s.map Tok.b
 
+/-- bytes written from an unsafe source (ghost label, see `Tok.u`); newline bytes are structure,
+    not content: they are what an unsafe text legitimately shows outside markers -/
+def bytesU (s : Str) : Toks := s.map (fun c => if c = nl then Tok.b c else Tok.u c)
+
+/-- the tokens of a stored redactable string: what is between markers counts as unsafe -/
+def relabel : Bool → Toks → Toks
+  | _, [] => []
+  | _, .op :: r => .op :: relabel true r
+  | _, .cl :: r => .cl :: relabel false r
+  | st, .b c :: r => (if st then Tok.u c else Tok.b c) :: relabel st r
+  | st, .u c :: r => .u c :: relabel st r
+
+def lexL (s : Str) : Toks := relabel false (lex s)
+
 def qT : Tok := .b qmark
 def nlT : Tok := .b nl
 
@@ -39,7 +53,7 @@ def escLoopT (brk : Bool) : Toks → Str → Toks
         show (r.dropWhile (· = nl)).length < (c :: r).length
         simp only [List.length_cons]; omega
       escLoopT brk (acc1 ++ nlT :: bytesT run ++ [.op]) rest
-    else escLoopT brk (acc ++ [.b c]) r
+    else escLoopT brk (acc ++ [if brk then Tok.u c else Tok.b c]) r   -- unsafe mode (brk): labelled
 termination_by _ c => c.length
 
 structure RBT where
@@ -71,7 +85,7 @@ def RBT.startRedactable (r : RBT) : RBT :=
 /-- raw mode: what is written is a redactable string, final as it is -/
 def RBT.write (r : RBT) (s : Str) : RBT :=
   match r.mode with
-  | .raw => { r with done := r.done ++ lex s }
+  | .raw => { r with done := r.done ++ lexL s }
   | .unsafeE => (if r.opened then { r with pend := r.pend ++ s } else { r.startRedactable with pend := s })
   | .safeE => { r with pend := r.pend ++ s }
 
@@ -132,6 +146,7 @@ def redactT (t : Toks) : Toks :=
     | _ => .op :: redactT r
   | .cl :: r => .cl :: redactT r
   | .b x :: r => .b x :: redactT r
+  | .u x :: r => .u x :: redactT r
 termination_by t.length
 
 end ErrModel
